@@ -71,6 +71,22 @@ int main(int argc, char **argv) {
             /* dense walk along the icosahedron edges: only the cell's own boundary */
             if (res >= 4) { CellVec dv = {0}; cv_seam_cells(&dv, res, quick ? ((res % 2) ? 1500 : 150) : 4000);   /* distortion vertices exist only at odd resolutions */ for (int64_t i = 0; i < dv.n; i++) if (i == 0 || dv.v[i] != dv.v[i - 1]) ev_boundary_lite(dv.v[i]); cv_free(&dv); }
         }
+        /* chains: the cells containing one point at successive resolutions (the 20 face centres, the 12 icosahedron vertices, random
+           points), walked downwards and upwards; before each observed call the library is primed with a call on a related cell
+           (parent, centre child, a neighbour, the cell itself): the result must not depend on what was asked before */
+        { H3Index p0[12]; getPentagons(0, p0); int npts = quick ? 40 : 120;
+          for (int k = 0; k < npts; k++) {
+            LatLng pt; if (k < 20) { pt.lat = VERIF_FACE_CENTER[k][0]; pt.lng = VERIF_FACE_CENTER[k][1]; } else if (k < 32) cellToLatLng(p0[k - 20], &pt); else { pt.lat = asin(2 * vt_rand01() - 1); pt.lng = (vt_rand01() - 0.5) * 2 * M_PI; }
+            for (int pass = 0; pass < 2; pass++) for (int step = 0; step <= 15; step++) {
+                int res = pass ? 15 - step : step; H3Index h; if (latLngToCell(&pt, res, &h)) continue;
+                H3Index rel = h; int which = (k + step + pass) % 4;
+                if (which == 0 && res > 0) cellToParent(h, res - 1, &rel); else if (which == 1 && res < 15) cellToCenterChild(h, res + 1, &rel); else if (which == 2) { H3Index d[7] = {0}; gridDisk(h, 1, d); rel = d[1 + (k % 5)] ? d[1 + (k % 5)] : h; }
+                CellBoundary prime; cellToBoundary(rel, &prime);                       /* priming call, not observed */
+                if (res >= 1 && (quick ? (k + step) % 3 == 0 : 1)) ev_boundary(h); else ev_boundary_lite(h);
+                if (res >= 1) { cellToBoundary(rel, &prime); double a; CellBoundary own; memset(&own, 0, sizeof own); cellToBoundary(h, &own);   /* primed own boundary vs the same call repeated */
+                    CellBoundary again; memset(&again, 0, sizeof again); cellToBoundary(h, &again); (void)a;
+                    fputs("{\"e\":\"boundaryTwice\",\"h\":", vt_out); vt_word(h); fprintf(vt_out, ",\"same\":%d}\n", own.numVerts == again.numVerts && !memcmp(own.verts, again.verts, sizeof(LatLng) * (own.numVerts > 0 && own.numVerts <= 10 ? own.numVerts : 0))); }
+            } } }
     } else if (argc == 4 && !strcmp(argv[1], "areasum")) {
         int res = atoi(argv[2]); vt_open(argv[3]); CellVec cv = {0}; cv_all_cells(&cv, res);
         fprintf(vt_out, "{\"e\":\"areaStart\",\"res\":%d}\n", res);
